@@ -47,6 +47,7 @@ type seen struct {
 	BodyLen int    `json:"body_read"`
 	BodyEOF bool   `json:"body_eof"`
 	HadBody bool   `json:"had_body"`
+	at      time.Time
 	body    []byte
 	Resp    string `json:"resp"`
 }
@@ -68,7 +69,7 @@ func (s *server) RoundTrip(req *http.Request) (*http.Response, error) {
 		return nil, errors.New("simulated server: request budget of the run exhausted")
 	}
 	simrt.Yield("http " + req.Method + " " + req.URL.Host)
-	e := &seen{N: n, Method: req.Method, Host: req.Host, URLHost: req.URL.Host, Path: req.URL.Path, Auth: req.Header.Get("Authorization")}
+	e := &seen{N: n, Method: req.Method, Host: req.Host, URLHost: req.URL.Host, Path: req.URL.Path, Auth: req.Header.Get("Authorization"), at: time.Now().UTC()}
 	e.HasAuth = e.Auth != ""
 	kind := s.tp.Tail
 	if n < len(s.tp.Script) {
@@ -209,17 +210,30 @@ func run(tapeJSON json.RawMessage, res *core.Result) {
 	net := world.NewNet()
 	net.CNAME = map[string]string{"host.sim.test": "host.sim.test.", "alias.sim.test": "Host.sim.test.", "nodns.sim.test": "!", "other.sim.test": "other.sim.test.",
 		"upper.sim.test": "upper.sim.test.", "UPPER.sim.test": "upper.sim.test."}
-	kdc := refkdc.New("SIM.TEST", tp.RunSeed, refkdc.Policy{})
+	pol := refkdc.Policy{}
+	if tp.GapS > 0 {
+		pol.MaxLifeS = 600 // tickets short enough for the gap between two calls to outlive them
+	}
+	kdc := refkdc.New("SIM.TEST", tp.RunSeed, pol)
+	// a second realm, trusted by the first: the service far.other.test lives there
+	other := refkdc.New("OTHER.TEST", tp.RunSeed+1, pol)
+	refkdc.Link(kdc, other)
+	other.AddService("HTTP/far.other.test")
+	net.CNAME["far.other.test"] = "far.other.test."
 	kdc.AddKeyUser("alice", 3)
 	for _, s := range []string{"HTTP/host.sim.test", "HTTP/other.sim.test", "HTTP/nodns.sim.test", "HTTP/upper.sim.test", "HTTP/explicit.sim.test"} {
 		kdc.AddService(s)
 	}
 	gk.Wire(net, kdc, []string{"10.0.0.1:88"}, nil)
+	gk.Wire(net, other, []string{"10.0.1.1:88"}, nil)
 	simnet.Install(net)
 	yes := true
 	et := gk.EtypeNames[tp.Etype]
 	cm := gk.ConfModel{DefaultRealm: "SIM.TEST", NoAddresses: &yes, TktEtypes: []string{et}, TGSEtypes: []string{et},
-		Realms: map[string][]string{"SIM.TEST": {"10.0.0.1:88"}}, DomainRealm: map[string]string{".sim.test": "SIM.TEST"}}
+		Realms: map[string][]string{"SIM.TEST": {"10.0.0.1:88"}, "OTHER.TEST": {"10.0.1.1:88"}}, DomainRealm: map[string]string{".sim.test": "SIM.TEST", ".other.test": "OTHER.TEST"}}
+	if tp.GapS > 0 {
+		cm.RenewLifetime, cm.TicketLifetime = "1d", "600"
+	}
 	cfg, _, err := cm.Parse()
 	if err != nil {
 		res.Verdict, res.Harness = "harness-error", "krb5.conf: "+err.Error()
@@ -265,6 +279,11 @@ func run(tapeJSON json.RawMessage, res *core.Result) {
 			}
 			warmExcess = warmExcess || srv.excess
 			srv.warm, srv.log, srv.excess = "", nil, false
+		}
+		if tp.GapS > 0 {
+			// time passes between the earlier calls and this one: cached tickets (10 minutes of
+			// life, renewable) may have expired by now
+			simrt.SleepExact(tp.GapS * int64(time.Second))
 		}
 		p, frame, msg := engine.Guard(func() {
 			var rdr io.Reader
@@ -338,7 +357,7 @@ func run(tapeJSON json.RawMessage, res *core.Result) {
 		viol("panic|"+strings.SplitN(panicMsg, ":", 2)[0], panicMsg)
 	}
 	fresh := map[string]bool{}
-	acc := &acceptor{kdc: kdc, now: time.Now().UTC(), fresh: fresh}
+	acc := &acceptor{kdc: kdc, other: other, now: time.Now().UTC(), fresh: fresh}
 	res.Evals = 1
 	// (3) bounded
 	if srv.excess {
@@ -346,6 +365,12 @@ func run(tapeJSON json.RawMessage, res *core.Result) {
 	}
 	if warmExcess {
 		viol("unbounded", fmt.Sprintf("more than %d requests in an earlier call of the reused client", maxRequests))
+	}
+	if tp.GapS > 600 {
+		res.Probes["reused-client-after-ticket-expiry"]++
+	}
+	if strings.HasSuffix(tp.Host, ".other.test") {
+		res.Probes["cross-realm-service"]++
 	}
 	if len(tp.Warm) > 0 {
 		res.Probes["reused-client"]++
@@ -369,7 +394,12 @@ func run(tapeJSON json.RawMessage, res *core.Result) {
 				res.Probes["redirect-then-challenge"]++
 			}
 			if i+1 >= len(srv.log) {
-				// the call ended here: fine if it reported an error or handed the 401 back
+				// the call ended here.  Handing the 401 back is fine; so is an error - unless the
+				// challenge answered a request without a token and the client then failed to produce
+				// one although KDC, network and name resolution are healthy
+				if !e.HasAuth && opErr != nil && panicMsg == "" && !srv.excess {
+					viol("challenge-not-answered", "the call ended with an error instead of a retry carrying a token: "+opErr.Error())
+				}
 				continue
 			}
 			nx := srv.log[i+1]
@@ -386,6 +416,7 @@ func run(tapeJSON json.RawMessage, res *core.Result) {
 			}
 			res.Evals++
 			res.Probes["token-checked-by-acceptor"]++
+			acc.now = nx.at
 			if why := acc.check(nx.Auth, want); why != "" {
 				clause := "invalid-token"
 				if strings.HasPrefix(why, "spn:") {
@@ -490,6 +521,7 @@ func shapeOf(tp *Tape) string {
 // ---- the independent acceptor
 type acceptor struct {
 	kdc   *refkdc.KDC
+	other *refkdc.KDC // the realm of services under .other.test
 	now   time.Time
 	fresh map[string]bool
 }
@@ -527,14 +559,18 @@ func (a *acceptor) check(hdr, wantSPN string) string {
 	if ap.Ticket.SName.String() != wantSPN {
 		return fmt.Sprintf("spn: ticket is for %s, the acceptor is %s", ap.Ticket.SName.String(), wantSPN)
 	}
-	if ap.Ticket.Realm != a.kdc.Realm {
+	home := a.kdc
+	if strings.HasSuffix(wantSPN, ".other.test") && a.other != nil {
+		home = a.other
+	}
+	if ap.Ticket.Realm != home.Realm {
 		return "spn: ticket realm " + ap.Ticket.Realm
 	}
-	p := a.kdc.DB[wantSPN]
+	p := home.DB[wantSPN]
 	if p == nil {
 		return "spn: acceptor principal unknown to the KDC: " + wantSPN
 	}
-	key, ok := p.KeyFor(a.kdc.Realm, int(ap.Ticket.Enc.Etype))
+	key, ok := p.KeyFor(home.Realm, int(ap.Ticket.Enc.Etype))
 	if !ok {
 		return "no service key for the ticket's etype"
 	}
